@@ -99,12 +99,9 @@ func classify(rec interface{}) (string, string) {
 	return "crash", fmt.Sprint(rec)
 }
 
+// transform goes through Mesh.Transform (which calls t.Transform and panics with its error)
 func transform(t modeling.Transformer, m modeling.Mesh) []modeling.Mesh {
-	r, err := t.Transform(m)
-	if err != nil {
-		panic(err)
-	}
-	return []modeling.Mesh{r}
+	return []modeling.Mesh{m.Transform(t)}
 }
 
 // Apply runs the real implementation. class: "ok", "declared" (error return / panic(error)), "crash".
@@ -184,6 +181,19 @@ func Apply(o OpDesc, ins []modeling.Mesh) (outs []modeling.Mesh, class string, m
 	case "set_indices":
 		return one(m.SetIndices(append([]int{}, o.Idx...))), "ok", ""
 	case "set_attr":
+		if o.Variant == "c" { // CopyFloatNAttribute: the data come from another mesh's attribute of that name
+			src := Desc{Topo: int(modeling.PointTopology), Idx: []int{}, Attrs: []Attr{{Arity: o.Arity, Name: o.Attr, Data: o.Data}}}.Mesh()
+			switch o.Arity {
+			case 1:
+				return one(m.CopyFloat1Attribute(src, o.Attr)), "ok", ""
+			case 2:
+				return one(m.CopyFloat2Attribute(src, o.Attr)), "ok", ""
+			case 3:
+				return one(m.CopyFloat3Attribute(src, o.Attr)), "ok", ""
+			default:
+				return one(m.CopyFloat4Attribute(src, o.Attr)), "ok", ""
+			}
+		}
 		switch o.Arity {
 		case 1:
 			x := make([]float64, len(o.Data))
@@ -228,6 +238,12 @@ func Apply(o OpDesc, ins []modeling.Mesh) (outs []modeling.Mesh, class string, m
 			return one(m.Translate(v3(o.V))), "ok", ""
 		case "t":
 			return transform(meshops.TranslateAttribute3DTransformer{Attribute: o.Attr, Amount: v3(o.V)}, m), "ok", ""
+		case "p": // the same map through the generic parallel modifier (pool of 1..5 workers)
+			amount := v3(o.V)
+			return one(m.ModifyFloat3AttributeParallelWithPoolSize(o.Attr, 1+len(o.Attr)%5, func(i int, v vector3.Float64) vector3.Float64 { return v.Add(amount) })), "ok", ""
+		case "q":
+			amount := v3(o.V)
+			return one(m.ModifyFloat3Attribute(o.Attr, func(i int, v vector3.Float64) vector3.Float64 { return v.Add(amount) })), "ok", ""
 		}
 		return one(meshops.TranslateAttribute3D(m, o.Attr, v3(o.V))), "ok", ""
 	case "scale3":
@@ -241,6 +257,12 @@ func Apply(o OpDesc, ins []modeling.Mesh) (outs []modeling.Mesh, class string, m
 	case "scale2":
 		if tv {
 			return transform(meshops.ScaleAttribute2DTransformer{Attribute: o.Attr, Origin: v2(o.V), Amount: v2(o.V2)}, m), "ok", ""
+		}
+		if o.Variant == "p" {
+			origin, amount := v2(o.V), v2(o.V2)
+			return one(m.ModifyFloat2AttributeParallelWithPoolSize(o.Attr, 1+len(o.Attr)%5, func(i int, v vector2.Float64) vector2.Float64 {
+				return origin.Add(v.Sub(origin).MultByVector(amount))
+			})), "ok", ""
 		}
 		return one(meshops.ScaleAttribute2D(m, o.Attr, v2(o.V), v2(o.V2))), "ok", ""
 	case "rotate":
@@ -547,8 +569,8 @@ func RandomOp(r *hx.Rng, d Desc, kinds []string) OpDesc {
 	o := OpDesc{Op: op}
 	variants := map[string][]string{
 		"unweld": {"", "t"}, "remove_unref": {"", "t"}, "remove_null": {"", "t"}, "flip": {"", "t"},
-		"filter": {"", "t"}, "crop": {"", "t"}, "translate": {"", "t", "m"}, "scale3": {"", "t", "m"},
-		"scale2": {"", "t"}, "rotate": {"", "t", "m"}, "center": {"", "t"}, "normalize3": {"", "t"},
+		"filter": {"", "t"}, "crop": {"", "t"}, "translate": {"", "t", "m", "p", "q"}, "scale3": {"", "t", "m"},
+		"scale2": {"", "t", "p"}, "set_attr": {"", "", "c"}, "rotate": {"", "t", "m"}, "center": {"", "t"}, "normalize3": {"", "t"},
 		"normalize2": {"", "t"}, "smooth_normals": {"", "t"}, "flat_normals": {"", "t"},
 		"smooth_implicit": {"", "t"}, "laplacian": {"", "t"}, "scale_along_normal": {"", "t"}, "laplacian_axis": {""}, "slice": {"", "t"},
 	}
